@@ -327,7 +327,8 @@ def _AnyOp(ops):
 # BaseEngine._run: the segment loop against ABSTRACT program segments (modular: only can_follow / bind_params / lock /
 # reg_refs of a Program are used).  Measured values are handed from one segment to the next MODE BY MODE (keyed by the
 # subsystem index, whatever was deleted or created in between), before the segment is run; nothing is handed to a mode
-# the successor does not have; the predecessor's references are left alone; every segment is bound, locked, run once and
+# the successor does not have; a value the successor still holds from an earlier run of its own is replaced by the
+# predecessor's more recent outcome of that mode; the predecessor's references are left alone; every segment is bound, locked, run once and
 # appended in order.  Register patterns fixed (shape-bounded), all values opaque.
 # ---------------------------------------------------------------------------------------------
 ENGINE = "strawberryfields.engine"
@@ -371,9 +372,11 @@ def _engine_handover(h):
     old0 = SegRef(0, ("OLD", 0)); old0.active = False
     prev = Segment("prev", [old0, SegRef(1, v1), SegRef(2, v2), SegRef(3, None)], log)
     # successor: modes 1, 2, 3 alive, mode 4 created; second successor: mode 1 deleted as well, mode 3 measured by segment A
-    a_refs = [SegRef(1), SegRef(2), SegRef(3), SegRef(4)]
+    # a successor may be a program that already ran on this engine (a repeated feed-forward segment): its references then
+    # still hold the outcomes of THAT run - stale wherever the predecessor holds a more recent outcome of the same mode
+    a_refs = [SegRef(1, ("STALE", 1)), SegRef(2), SegRef(3), SegRef(4)]
     A = Segment("A", a_refs, log)
-    B = Segment("B", [SegRef(2), SegRef(3), SegRef(4), SegRef(5)], log)
+    B = Segment("B", [SegRef(2, ("STALE", 2)), SegRef(3, ("STALE", 3)), SegRef(4), SegRef(5)], log)
     seen = {}
 
     def run_program(self, p, **kw):
@@ -401,6 +404,11 @@ def _engine_handover(h):
                        ("can_follow", "B", "A"), ("bind", "B"), ("lock", "B"), ("run", "B")], bounded_shape=True)
     h.ensure("run-history-appended-in-order", [p.name for p in eng.run_progs] == ["prev", "A", "B"], bounded_shape=True)
     h.ensure("samples-of-the-last-segment-kept", eng.samples == "SAMPLES-B" and eng.samples_dict == {"dict": "B"}, bounded_shape=True)
+
+
+# the same contract carries C10's clause "a measured parameter always evaluates to the most recent outcome of the mode it
+# refers to" across segments (including a segment that is run again after the mode was re-measured elsewhere)
+proof("C10", ENGINE + ":BaseEngine._run", name="BaseEngine._run/most-recent-outcome-reaches-a-repeated-segment")(_engine_handover)
 
 
 # ---------------------------------------------------------------------------------------------
